@@ -61,6 +61,29 @@ pub fn link_op(taps: &Taps) -> (String, String) {
     (op, imp)
 }
 
+/// the front-end-assumption request for a tapped run: the observation stream and equalizer bytes as in
+/// `link.run`, plus every transmitted burst's payload with a hint where its first bit lies in the tick
+/// stream (the first tick whose input sample counter is not before the burst's first sample)
+pub fn fe_req(taps: &Taps, bursts: &[(Vec<u8>, usize)]) -> Option<String> {
+    if taps.squelch.len() != taps.ticks.len() || bursts.is_empty() {
+        return None;
+    }
+    let obs: String = taps
+        .squelch
+        .iter()
+        .map(|t| (b'0' + (t.bit as u8) + 2 * (t.open_ok as u8) + 4 * (t.close_ok as u8)) as char)
+        .collect();
+    let bytes: Vec<u8> = taps.bytes.iter().map(|b| b.byte).collect();
+    let bl: Vec<String> = bursts
+        .iter()
+        .map(|(p, start)| {
+            let hint = taps.ticks.partition_point(|t| (t.input_sample_counter as usize) < *start);
+            format!("{}@{}", hex(p), hint)
+        })
+        .collect();
+    Some(format!("{};{};{};{};{};{}", DISCRETE_CFG.0, DISCRETE_CFG.1, DISCRETE_CFG.2, obs, hex(&bytes), bl.join(",")))
+}
+
 /// the transport/receiver-model request for a tapped run and the events the implementation returned (T3 => events)
 pub fn rx_op(rate: u32, taps: &Taps, evs: &[SameReceiverEvent]) -> (String, String) {
     let mut s = String::new();
@@ -183,6 +206,11 @@ pub fn run_c01(ctx: &Ctx) {
         let ends: Vec<String> = a.bursts.iter().map(|b| format!("{}-{}", b.0, b.1)).collect();
         out.spec(&format!("spec.sig c08 {},{} [{}] => {}", rate, ends.join(","), label.replace(' ', ";"), evline));
         fe_margins(&mut out, &taps);
+        // are the front-end assumptions of C01.burst_delivered / Chain.transmission_decoded met by this run?
+        let bl: Vec<(Vec<u8>, usize)> = a.bursts.iter().enumerate().map(|(k, b)| (if k < 3 { h.clone() } else { b"NNNN".to_vec() }, b.0)).collect();
+        if let Some(req) = fe_req(&taps, &bl) {
+            out.spec(&format!("spec.sig fe {} [{}] => -", req, label.replace(' ', ";")));
+        }
         out.count(&format!("rate:{}", if STD_RATES.contains(&rate) { rate.to_string() } else { "other".to_owned() }));
         out.count(&format!("cfg:{:?}", cfg));
         out.count(&format!("hdr_len_decile:{}", h.len() / 26));
@@ -244,6 +272,7 @@ pub fn run_near(ctx: &Ctx) {
     let kinds = [
         "silence", "noise", "tone_mark", "tone_space", "tone_other", "programme", "fsk_1200", "fsk_300", "fsk_520_no_preamble",
         "preamble_only", "lone_header", "lone_header_noisy", "disagreeing_pair", "prefix_errors", "header_then_other_header", "lone_trailer_after_header",
+        "damaged_trailers",
     ];
     for i in 0..n {
         if !ctx.want(i) {
@@ -300,6 +329,22 @@ pub fn run_near(ctx: &Ctx) {
                 for k in 0..3 {
                     a.burst(16, &hb, &mut rng);
                     if k < 2 {
+                        a.silence(lg.pause, &mut rng);
+                    }
+                }
+            }
+            "damaged_trailers" => {
+                // two or three trailer bursts, each with one or two bit errors in its prefix (still framed:
+                // the prefix tolerates two): an EndOfMessage needs two bursts that agree on `NN`
+                let nb = rng.range(2, 3);
+                for k in 0..nb {
+                    let mut t = b"NNNN".to_vec();
+                    for _ in 0..rng.range(1, 2) {
+                        let i = rng.below(4) as usize;
+                        t[i] ^= 1 << rng.below(7);
+                    }
+                    a.burst(16, &t, &mut rng);
+                    if k + 1 < nb {
                         a.silence(lg.pause, &mut rng);
                     }
                 }
